@@ -187,6 +187,22 @@ def St.reset : St α → St α
 
 end reset
 
+def optCount (o : Option α) : Nat := if o.isSome then 1 else 0
+
+/-- **C19**: the number of sample values a windowed filter owns in its state (every one of them is a
+value the filter was given, cloned or computed, and must drop exactly once) -/
+def St.owned : St α → Nat
+  | .median s => (s.buffer.filter (fun n => n.value.isSome)).length
+  | .mean _ s => s.taps.length + optCount s.mean + 1          -- taps, running sum, weight
+  | .max _ s => s.taps.length
+  | .min _ s => s.taps.length
+  | .bounds _ a b => a.taps.length + b.taps.length
+  | .convolve c t => c.length + t.length                      -- coefficients and taps
+  | .delay _ t => t.length
+  | .cache i c => i.owned + (match c with | none => 0 | some l => l.length)
+  | .unit i => i.owned
+  | _ => 0
+
 /-- index into the two/three configured outputs (`self.config.outputs[index].clone()`) -/
 def pick (out : List α) (i : Nat) : Option (List α) := (out[i]?).map (fun v => [v])
 
